@@ -362,7 +362,7 @@ impl Engine for WireEngine {
                 }
                 let knobs = ExecKnobs {
                     spurious_polls: faults_on,
-                    max_polls: 20_000,
+                    max_polls: 5_000_000,
                 };
                 let rep = run_tasks(ctx, &mut tasks, &knobs);
                 for (c, t) in tasks.iter().enumerate() {
@@ -372,6 +372,26 @@ impl Engine for WireEngine {
                 }
                 rep
             };
+            // bounded liveness: once the last fault has fired every call completes within a
+            // number of scheduler steps linear in the deliveries that were scheduled
+            let budget: u64 = {
+                let exs = st.sh.exchanges.lock().unwrap();
+                64 * ncalls as u64
+                    + exs
+                        .iter()
+                        .map(|e| {
+                            8 * (e.req_plan.steps.len() as u64 + e.resp_plan.steps.len() as u64 + 4)
+                                + 4 * (if e.sent.streaming { e.sent.body.as_ref().map(|b| b.len() as u64).unwrap_or(0) } else { 0 })
+                                + 4 * match &e.server {
+                                    crate::transport::ServerOut::Ok(w) if w.streaming => w.body.len() as u64,
+                                    _ => 0,
+                                }
+                        })
+                        .sum::<u64>()
+            };
+            if !report.stalled && !report.exceeded && report.polls as u64 > budget {
+                liveness = Some(format!("{} scheduler steps for a history that needs at most {}", report.polls, budget));
+            }
             if report.stalled {
                 liveness = Some(format!("executor stalled after {} polls: a task is Pending with no wake-up and no timer", report.polls));
             } else if report.exceeded {
